@@ -119,6 +119,34 @@ at that telegram (`runAll` threads the registration list through `process`). -/
 theorem stream_calls (fmt : Fmt) (t : Telegram) (ts : List Telegram) (regs : List Reg) :
     runAll fmt regs (t :: ts) = renderEvs (process fmt regs t).2 :: runAll fmt (process fmt regs t).1 ts := rfl
 
+/-- (5') The same over histories in which registrations are edited in place between telegrams: a telegram's calls are
+decided by the lists as they are at that telegram - nothing remembered from earlier telegrams (no per-callback cache of
+filter verdicts) can enter, because `runItems` carries nothing but the registration list. -/
+theorem history_calls_tg (fmt : Fmt) (t : Telegram) (is : List Item) (regs : List Reg) :
+    runItems fmt regs (.tg t :: is) = renderEvs (process fmt regs t).2 :: runItems fmt (process fmt regs t).1 is := rfl
+
+theorem history_calls_edit (fmt : Fmt) (id : Nat) (fs : List Filter) (as : List DevAddr) (is : List Item) (regs : List Reg) :
+    runItems fmt regs (.edit id fs as :: is) = "E" :: runItems fmt (regs.map (editReg id fs as)) is := rfl
+
+/-- after an edit the edited registration is called exactly when the NEW lists say so -/
+theorem called_after_edit (fmt : Fmt) (r : Reg) (fs : List Filter) (as : List DevAddr) (t : Telegram) :
+    called fmt (editReg r.id fs as r) t =
+      (if !r.matchOutgoing && t.outgoing then false
+       else if r.matchAll then true
+       else match t.dst with
+         | .dev a => fs.any (fun f => filterHit fmt f a) || as.any (fun g => a == g)
+         | .individual _ => false) := by
+  unfold called editReg
+  simp only [beq_self_eq_true, ↓reduceIte]
+  cases hd : t.dst <;> rfl
+
+/-- a telegram stream is the special case without edits -/
+theorem runItems_tgs (fmt : Fmt) (ts : List Telegram) (regs : List Reg) :
+    runItems fmt regs (ts.map .tg) = runAll fmt regs ts := by
+  induction ts generalizing regs with
+  | nil => rfl
+  | cons t ts ih => simp [runItems, runAll, ih]
+
 /-! Non-vacuity -/
 example : called .long ⟨0, false, false, [], [.ga 2305], ⟨false, []⟩⟩ ⟨false, .dev (.ga 2305)⟩ = true := by decide
 example : (process .long [⟨0, true, false, [], [], ⟨true, [0]⟩⟩, ⟨1, true, true, [], [], ⟨false, []⟩⟩] ⟨false, .dev (.ga 1)⟩)
